@@ -9,7 +9,8 @@
 //!   op: `conn i` | `connx i` (connect request queued, then the client gives up before it is accepted)
 //!       | `send i full|half|rest|garbage|prihalf|pri` | `gate i` | `close i` | `signal` | `droplistener`
 //!       | `sigconn i` / `sigdrop`: the signal resolves and a connect request / loss of the listener become ready before the server runs again
-//! obs per op: `<P|OK|EA|EM> <client>*` with client = `<n|o|x|r>.<complete 200 responses>.<eof 0|1>.<handler calls>`
+//! obs per op: `<P|OK|EA|EM> <client>*` with client = `<n|o|x|r>.<complete 200 responses>.<eof 0|1>.<handler calls>`;
+//!   the last op's observation ends with `mk=<make-service calls not preceded by a poll_ready that answered ready>`
 use crate::rng::Rng;
 use hyperdriver::server::conn::Acceptor;
 use hyperdriver::service::make_service_fn;
@@ -32,6 +33,30 @@ struct Shared {
     gates: Mutex<HashMap<usize, Arc<Semaphore>>>,
     calls: Mutex<HashMap<usize, usize>>,
     made: AtomicUsize,
+    /// make-service calls that were not preceded by a `poll_ready` answering ready (tower's contract; a make-service that
+    /// limits concurrent connections, say, relies on it)
+    unready_calls: AtomicUsize,
+}
+
+/// watches that the server asks the make-service whether it is ready before every call
+struct ReadyWatch<M> { inner: M, ready: bool, sh: Arc<Shared> }
+impl<'a, IO, M> tower::Service<&'a IO> for ReadyWatch<M>
+where
+    M: tower::Service<&'a IO>,
+{
+    type Response = M::Response;
+    type Error = M::Error;
+    type Future = M::Future;
+    fn poll_ready(&mut self, cx: &mut Context<'_>) -> Poll<Result<(), Self::Error>> {
+        let r = self.inner.poll_ready(cx);
+        if matches!(r, Poll::Ready(Ok(()))) { self.ready = true; }
+        r
+    }
+    fn call(&mut self, io: &'a IO) -> Self::Future {
+        if !self.ready { self.sh.unready_calls.fetch_add(1, Ordering::SeqCst); }
+        self.ready = false;
+        self.inner.call(io)
+    }
 }
 
 fn gate(sh: &Shared, i: usize) -> Arc<Semaphore> {
@@ -113,7 +138,7 @@ async fn run_case(cfg: &[&str], ops: &[Vec<&str>]) -> String {
     macro_rules! make {
         ($io:ty) => {{
             let sh2 = sh.clone();
-            make_service_fn(move |_io: &$io| {
+            ReadyWatch { ready: false, sh: sh.clone(), inner: make_service_fn(move |_io: &$io| {
                 let sh = sh2.clone();
                 let k = sh.made.fetch_add(1, Ordering::SeqCst);
                 let fail = makefail == Some(k);
@@ -122,7 +147,7 @@ async fn run_case(cfg: &[&str], ops: &[Vec<&str>]) -> String {
                     let sh = sh.clone();
                     Ok(tower::service_fn(move |req| handler(sh.clone(), req)))
                 }
-            })
+            }) }
         }};
     }
     let (sig_tx, sig_rx) = tokio::sync::oneshot::channel::<()>();
@@ -256,6 +281,9 @@ async fn run_case(cfg: &[&str], ops: &[Vec<&str>]) -> String {
         out.push(format!("{srv} {}", cs.join(" ")));
     }
     server_task.abort();
+    // (not a client: the driver reads it off the last op's observation)
+    let unready = sh.unready_calls.load(Ordering::SeqCst);
+    if let Some(last) = out.last_mut() { last.push_str(&format!(" mk={unready}")); }
     out.join(" ; ")
 }
 
